@@ -77,7 +77,7 @@ inline std::vector<uint8_t> gen_content_sized(vf::Tape& t, size_t target, Conten
             for (size_t i = 0; i < room; i++) out.push_back((uint8_t)('a' + ((i / per) + (x.s & 3)) % 13));
             break;
         }
-        switch (t.weighted({4, 2, 5, 2, 2, 1, 1, 2, 1})) {
+        switch (t.weighted({4, 2, 5, 2, 2, 1, 1, 2, 1, 1})) {
             case 0: {  // LIT over an alphabet
                 size_t len = gen_len(t, room);
                 unsigned alpha = (unsigned)t.pick<unsigned>({2, 4, 16, 64, 256, 1, 3, 200});
@@ -158,6 +158,35 @@ inline std::vector<uint8_t> gen_content_sized(vf::Tape& t, size_t target, Conten
                 }
                 break;
             }
+            case 9: {  // RECNOISE: inside one block, stretches of records built from 2-3 templates (many sequences, alternating
+                       // offsets: repeat-offset 2/3 material) alternate with near-incompressible stretches that hold a few
+                       // short copies (a block-splitter partition that has sequences but is stored raw)
+                unsigned rounds = (unsigned)t.range(2, 8);
+                Xs x(t.raw() + 31);
+                unsigned ntpl = (unsigned)t.range(2, 3);
+                std::vector<std::vector<uint8_t>> tpl(ntpl);
+                for (auto& tp : tpl) { tp.resize((size_t)t.range(12, 70)); for (auto& b : tp) b = (uint8_t)('A' + x.next() % 40); }
+                for (unsigned r = 0; r < rounds && out.size() < target; r++) {
+                    size_t rec = (size_t)t.range(1500, 20000), nz = (size_t)t.range(1500, 20000);
+                    size_t end = std::min(target, out.size() + rec);
+                    while (out.size() < end) {
+                        const std::vector<uint8_t>& tp = tpl[x.next() % ntpl];
+                        size_t mut = x.next() % tp.size(), mut2 = x.next() % tp.size();
+                        for (size_t i = 0; i < tp.size() && out.size() < end; i++) out.push_back((i == mut || i == mut2) ? (uint8_t)x.next() : tp[i]);
+                    }
+                    end = std::min(target, out.size() + nz);
+                    size_t next_copy = out.size() + 200 + x.next() % 1200;
+                    while (out.size() < end) {
+                        if (out.size() >= next_copy && out.size() > 3000) {
+                            size_t d = 20 + x.next() % 2000, cl = 4 + x.next() % 4, from = out.size() - d;
+                            for (size_t i = 0; i < cl && out.size() < end; i++) out.push_back(out[from + i]);
+                            next_copy = out.size() + 200 + x.next() % 1200;
+                        } else out.push_back((uint8_t)(x.next() >> 5));
+                    }
+                }
+                ci.copies++; ci.noise++;
+                break;
+            }
             case 7: {  // REPEATSEG: one segment repeated k times with differing bytes between (records with a common field:
                        // equal-length match candidates, hash-bucket ties, LDM and repcode material)
                 size_t seglen = (size_t)t.range(16, 4096);
@@ -215,6 +244,39 @@ inline bool continue_dict_tail(vf::Tape& t, const std::vector<uint8_t>& dict_con
     for (size_t i = q; i < q + L; i++) x[i] = i >= p ? x[i - p] : dict_content[dict_content.size() - p + i];
     if (t.chance(60)) x.resize(q + L + (size_t)t.range(0, 40));
     return true;
+}
+
+// Whole-input shape for the block splitter: record-like stretches (short copies at a handful of fixed strides, 0-2 fresh
+// letters between: hundreds of sequences per block, mostly repeat offsets) alternating with 20-90 KiB of noise that holds
+// sparse 4-7 byte copies (a partition with sequences that is nevertheless stored raw).
+inline std::vector<uint8_t> gen_records_and_noise(vf::Tape& t, size_t total) {
+    std::vector<uint8_t> b; b.reserve(total);
+    Xs x(t.raw() + 77);
+    auto rec = [&](size_t n, unsigned nstr) {
+        size_t end = std::min(total, b.size() + n); unsigned strides[4];
+        for (auto& sd : strides) sd = 20 + x.next() % 200;
+        while (b.size() < end) {
+            unsigned st = strides[x.next() % nstr], len = 4 + x.next() % 12;
+            if (b.size() < st + 1000) { b.push_back((uint8_t)('a' + x.next() % 26)); continue; }
+            for (unsigned i = 0; i < len && b.size() < end; i++) b.push_back(b[b.size() - st]);
+            unsigned nl = x.next() % 3;
+            for (unsigned i = 0; i < nl && b.size() < end; i++) b.push_back((uint8_t)('a' + x.next() % 16));
+        }
+    };
+    auto noise = [&](size_t n, unsigned gap, unsigned cl) {
+        size_t end = std::min(total, b.size() + n);
+        while (b.size() < end) {
+            size_t run = gap / 2 + x.next() % gap;
+            for (size_t i = 0; i < run && b.size() < end; i++) b.push_back((uint8_t)(x.next() >> 4));
+            if (b.size() > 1000 && b.size() + cl < end) { size_t lim = std::min<size_t>(b.size() - 100, 60000); size_t off = 16 + x.next() % lim; for (unsigned i = 0; i < cl; i++) b.push_back(b[b.size() - off]); }
+        }
+    };
+    rec((size_t)t.range(3000, 150000), (unsigned)t.range(1, 4));
+    while (b.size() < total) {
+        noise((size_t)t.range(20000, 90000), (unsigned)t.range(100, 900), (unsigned)t.range(4, 7));
+        rec((size_t)t.range(5000, 65000), (unsigned)t.range(1, 4));
+    }
+    return b;
 }
 
 }  // namespace gen
